@@ -41,17 +41,19 @@ include!("suite_table.rs");
 include!("suite_core.rs");
 include!("suite_rot.rs");
 include!("suite_codec.rs");
+include!("suite_init.rs");
 
 pub struct State {
     pure_: PureState,
     table: TableState,
     core: CoreState,
     rot: RotState,
+    init: InitSuite,
 }
 
 impl State {
     fn new() -> Self {
-        State { pure_: PureState::new(), table: TableState::new(), core: CoreState::new(), rot: RotState::new() }
+        State { pure_: PureState::new(), table: TableState::new(), core: CoreState::new(), rot: RotState::new(), init: InitSuite::new() }
     }
 
     fn step(&mut self, line: &str) -> String {
@@ -76,6 +78,9 @@ impl State {
             return r;
         }
         if let Some(r) = codec_step(&toks) {
+            return r;
+        }
+        if let Some(r) = self.init.step(&toks) {
             return r;
         }
         "bad-op".to_string()
